@@ -85,6 +85,27 @@ def calcHolo (raw : List (V3 α) → List (CV3 α)) (k : α) (o : V3 α) (pts : 
 def calcIntensity (raw : List (V3 α) → List (CV3 α)) (k : α) (o : V3 α) (pts : List (V3 α)) : List α :=
   (calcField raw k o pts).map intensityPixel
 
+/-! ### pixel selection (C07): `make_subset_data`, crops, explicit point lists -/
+
+/-- values (or points) at the selected flat indices: `flat(data).isel(flat=selection)` -/
+def selectIdx {β : Type} (sel : List Nat) (l : List β) (d : β) : List β := sel.map fun i => l.getD i d
+
+/-- a pointwise solver: one field vector per position, computed from that position alone -/
+def pointwise (f : V3 α → CV3 α) : List (V3 α) → List (CV3 α) := fun ps => ps.map f
+
+/-- `make_subset_data`: selected values, their (x, y, z), and the remembered original axes -/
+structure Subset (α : Type) where
+  vals : List α
+  pts : List (V3 α)
+  origDims : List (String × List α)
+
+def makeSubset (nx ny : Nat) (sx sy z : α) (data : List α) (sel : List Nat) : Subset α :=
+  let pts := gridPoints nx ny sx sy z
+  { vals := selectIdx sel data (lit 0),
+    pts := selectIdx sel pts (lit 0, lit 0, lit 0),
+    origDims := [("z", [z]), ("x", (List.range nx).map fun i => ((i : Nat) : α) * sx),
+                 ("y", (List.range ny).map fun j => ((j : Nat) : α) * sy)] }
+
 /-! ### Lorenz–Mie per-point glue built from the translated Fortran -/
 
 /-- body of the `mie_fields` loop without the radial term: amplitude matrix `diag(S2, S1)`
